@@ -32,7 +32,10 @@ def build_circuit(nphys, instrs, nclbits, split=None):
     registers (c and the rest): qubit / clbit numbers in `instrs` are positions in the CIRCUIT, as everywhere"""
     from qiskit import QuantumCircuit, QuantumRegister, ClassicalRegister
     ncl = max(1, nclbits)
-    if split and 0 < split[0] < nphys:
+    if split == "reversed":      # the circuit holds the bits of one register in REVERSED order (what reverse_bits() produces): Qubit._index != position
+        qc = QuantumCircuit(nphys, ncl, name="circ").reverse_bits()      # one register each, but circuit position k holds register bit n-1-k
+        assert len(qc.qregs) == 1 and (nphys < 2 or qc.qubits[0]._index != 0)
+    elif split and 0 < split[0] < nphys:
         regs = [QuantumRegister(split[0], "a"), QuantumRegister(nphys - split[0], "b")]
         regs += [ClassicalRegister(split[1], "c"), ClassicalRegister(ncl - split[1], "d")] if 0 < split[1] < ncl else [ClassicalRegister(ncl, "c")]
         qc = QuantumCircuit(*regs, name="circ")
@@ -46,7 +49,7 @@ def build_circuit(nphys, instrs, nclbits, split=None):
         elif name == "ecr": qc.ecr(qs[0], qs[1])
         elif name == "delay": qc.delay(int(extra), qs[0])
         elif name == "barrier": qc.barrier(*qs)
-        elif name == "measure": qc.measure(qs[0], extra)
+        elif name == "measure": qc.measure(qc.qubits[qs[0]], qc.clbits[extra])
         else: raise ValueError(name)
     return qc
 
